@@ -9,6 +9,6 @@ import (
 )
 
 func TestSimWorker(t *testing.T) {
-	core.GCEvery = 64
+	core.GCBetween = false
 	core.WorkerMain(t)
 }
